@@ -196,3 +196,26 @@ TI("nu_set", params=[("cb2", R)], first="self.nu", last="self.nu", outputs=["sel
 TI("mu_set", params=[("cs2", R)], first="self.mu", last="self.mu", outputs=["self_mu"], dom={"cs2": (0.2, 0.34)})
 TI("epsilon_set", params=[("wN", R), ("mu", R), ("nu", R), ("alN", R)], first="self.epsilon", last="self.epsilon",
    outputs=["self_epsilon"], dom={"mu": (3.9, 6.0), "nu": (3.9, 6.0)})
+
+# ------------------------------------------------------------------------- Boltz
+module("Boltz")
+BOLTZ_ENV = {"BoltzmannSolver.MAX_EXPONENT": ("const", "709.782712893384"),
+             "BoltzmannSolver._dfeq(_,_)": ("gen", "dfeq"), "BoltzmannSolver._feq(_,_)": ("gen", "feq"),
+             "self.grid.getCompactificationDerivatives()": ("tuplevars", ["dxidchiIn", "dpzdrzIn", "dppdrpIn"])}
+BZ = lambda *a, **k: add(Spec(*a, module="Boltz", file="boltzmann.py", env=BOLTZ_ENV, pointwise=True, **k))  # noqa: E731
+BDOM = {"x": (-3.0, 30.0), "statistics": (-1.0, 1.0), "msq": (0.0, 2.0), "pz": (-3.0, 3.0), "pp": (0.05, 4.0), "energy": (0.5, 4.0),
+        "v": (-0.8, 0.3), "velocityWall": (0.1, 0.8), "temperature": (0.5, 2.0)}
+BZ("feq", path="BoltzmannSolver._feq", params=[("x", R), ("statistics", R)], dom=BDOM)
+BZ("dfeq", path="BoltzmannSolver._dfeq", params=[("x", R), ("statistics", R)], dom=BDOM)
+BZ("deltaIntegrand", path="BoltzmannSolver.getDeltas",
+   params=[("msq", R), ("pz", R), ("pp", R), ("dxidchiIn", R), ("dpzdrzIn", R), ("dppdrpIn", R)], ret="RxR",
+   first="energy", last="integrand", outputs=["energy", "integrand"], dom=BDOM,
+   doc="common factor of the four moment integrands: dpz/drz * dpp/drp * pp / (4 pi^2 E)")
+for nm in ("Delta00", "Delta02", "Delta20", "Delta11"):
+    BZ("weight" + nm, path="BoltzmannSolver.getDeltas", params=[("pz", R), ("energy", R), ("integrand", R)],
+       arg_of=(nm, 1), dom=BDOM, doc=f"integration weight handed to integrate() for {nm}")
+BZ("sourceTerm", path="BoltzmannSolver.buildLinearEquations",
+   params=[("velocityWall", R), ("pz", R), ("energy", R), ("v", R), ("temperature", R), ("dvdChi", R), ("dTemperaturedChi", R),
+           ("dMsqdChi", R), ("statistics", R), ("dxidchiIn", R), ("dpzdrzIn", R), ("dppdrpIn", R)],
+   ret="RxRxRxRxR", first="gammaWall", last="source#0", outputs=["source", "momentumWall", "gammaWall", "dchidxi", "drzdpz"], dom=BDOM,
+   doc="pointwise source term of the linearised Boltzmann equation and the factors entering the Liouville operator")
